@@ -80,6 +80,73 @@ def test_text(fn: Func, encl: Any) -> str:
     return "<unconditional>"
 
 
+REPORT_FUNCS = ("_handle_error_and_close", "_handle_error")
+
+
+def reported_under(ctx: Ctx, fn: Func, asg: dict[str, bool], classify, extra_report=None, start: Node | None = None) -> tuple[set[str], bool, bool, list[ast.expr]]:
+    """Walk fn's CFG under an assignment of its guard atoms: which error classes are handed to a report call
+    (or raised, or to a callee named by extra_report), is a report reachable (may), is it unavoidable (must),
+    and the constructor expressions involved.  Errors built into a local on a branch and reported after the
+    join are followed through the assignments reachable under the same assignment."""
+    g = cfg_of(ctx, fn)
+    reach = walk(g, asg, classify, start)
+    rep_nodes: list[Node] = []
+    exprs: list[ast.expr] = []
+    for n in g.reachable():
+        if n not in reach or n.ast is None or n.kind not in ("stmt", "cond"):
+            continue
+        hit = False
+        if isinstance(n.ast, ast.Raise) and n.ast.exc is not None:
+            exprs.append(n.ast.exc)
+            hit = True
+        for c in node_calls(n):
+            if isinstance(c.func, ast.Attribute) and c.func.attr in REPORT_FUNCS and norm(c.func.value) in ("self", "super()") and c.args:
+                exprs.append(c.args[0])
+                hit = True
+            elif extra_report is not None and extra_report(c):
+                hit = True
+        if hit:
+            rep_nodes.append(n)
+    classes: set[str] = set()
+    ctors: list[ast.expr] = []
+
+    def add(e: ast.expr, depth: int = 0) -> None:
+        k = err_class(ctx, fn, e)
+        if k is not None:
+            classes.add(k)
+            ctors.append(e)
+            return
+        if isinstance(e, ast.IfExp):
+            add(e.body, depth + 1)
+            add(e.orelse, depth + 1)
+            return
+        if isinstance(e, ast.Name) and depth < 4:
+            defs = []
+            for m in g.reachable():
+                if m in reach and m.kind == "stmt" and isinstance(m.ast, (ast.Assign, ast.AnnAssign)):
+                    tg = m.ast.targets if isinstance(m.ast, ast.Assign) else [m.ast.target]
+                    if any(isinstance(t, ast.Name) and t.id == e.id for t in tg) and m.ast.value is not None:
+                        defs.append(m)
+            for m in defs:
+                add(m.ast.value, depth + 1)
+            if e.id in fn.param_names():
+                # the parameter itself still reaches a report on a path that passes none of the re-definitions
+                free = walk(g, asg, classify, start, blocked=set(defs))
+                if any(r in free for r in rep_nodes):
+                    classes.add(f"<param {e.id}>")
+            elif not defs:
+                classes.add(f"<{e.id}>")
+            return
+        classes.add(f"<{norm(e)[:30]}>")
+
+    for e in exprs:
+        add(e)
+    may = bool(rep_nodes)
+    avoid = walk(g, asg, classify, start, blocked=set(rep_nodes))
+    must = may and g.exit not in avoid
+    return classes, may, must, ctors
+
+
 def run(ctx: Ctx) -> None:
     res = resolver(ctx)
     noise = ctx.repo.cls("APINoiseFrameHelper")
@@ -104,20 +171,62 @@ def run(ctx: Ctx) -> None:
             detail += f"; {d2}"
         ctx.ob("C04.R1", fn, what, ok, detail, node=s if isinstance(s, ast.AST) else None)
 
+    def site(fn: Func, what: str, classify, deviation: dict[str, bool], want: str, normal: dict[str, bool] | None = None, extra=None, start: Node | None = None, must: bool = True) -> None:
+        """A deviation site given semantically: under the atom assignment `deviation` exactly the class `want` is
+        reported, on every path; under `normal` (if given) nothing is reported.  Any spelling of the guards
+        (==/!= with swapped branches, De Morgan, early return, a named condition, an error built into a local on
+        a branch) yields the same table."""
+        nonlocal n_sites
+        classes, may, mst, ctors = reported_under(ctx, fn, deviation, classify, start=start)
+        ok = may and (mst or not must) and classes == {want}
+        detail = f"under {deviation}: reports {sorted(classes) or 'nothing'}{'' if mst or not must else ' (not on every path)'}, specified {want}"
+        if ok and extra is not None and ctors:
+            ok2, d2 = extra(ctors[0])
+            ok = ok and ok2
+            detail += f"; {d2}"
+        if ok and normal is not None:
+            c2, may2, _, _ = reported_under(ctx, fn, normal, classify, start=start)
+            ok = not may2
+            if may2:
+                detail = f"under {normal} (no deviation) an error is still reported: {sorted(c2)}"
+        if may:
+            n_sites += 1
+        ctx.ob("C04.R1", fn, what, ok, detail)
+
+    from ..astutil import bound_name
+
     # -- Noise receive loop: marker byte
     dr = noise.methods["data_received"]
-    hv = next((n.target.id for n in own_nodes(dr.node) if isinstance(n, ast.NamedExpr) and isinstance(n.value, ast.Call) and norm(n.value.func) == "self._read" and n.value.args and isinstance(n.value.args[0], ast.Constant)), "header")
-    expect(dr, "marker byte != 0x01 -> protocol error", lambda t: t.replace(" ", "") in (f"{hv}[0]!=1",), "ProtocolAPIError")
+    hdr_reads = [c for c in own_nodes(dr.node) if isinstance(c, ast.Call) and norm(c.func) == "self._read" and c.args and isinstance(c.args[0], ast.Constant)]
+    hv = (bound_name(dr.node, hdr_reads[0]) if hdr_reads else None) or "header"
+    from .c02 import inline_except
+
+    def cl_marker(n: Node):
+        t = n.ast
+        if isinstance(t, ast.Compare) and len(t.ops) == 1 and isinstance(t.ops[0], (ast.Eq, ast.NotEq)) and isinstance(t.comparators[0], ast.Constant) and t.comparators[0].value == 1:
+            if norm(inline_except(dr, t.left, {hv})) == f"{hv}[0]":
+                return ("marker_ok", isinstance(t.ops[0], ast.Eq))
+        if isinstance(t, ast.Compare) and len(t.ops) == 1 and isinstance(t.ops[0], (ast.Is, ast.IsNot)) and norm(t.left) == hv and isinstance(t.comparators[0], ast.Constant) and t.comparators[0].value is None:
+            return ("header_complete", isinstance(t.ops[0], ast.IsNot))
+        return None
+
+    gdr = cfg_of(ctx, dr)
+    hc_nodes = [n for n in gdr.reachable() if n.kind == "cond" and (cl_marker(n) or ("", 0))[0] == "header_complete"]
+    site(dr, "marker byte != 0x01 -> protocol error", cl_marker, {"header_complete": True, "marker_ok": False}, "ProtocolAPIError", start=hc_nodes[0] if hc_nodes else None)
     # -- hello
     hh = noise.methods["_handle_hello"]
     hp = [p for p in hh.param_names() if p != "self"][0]
-    expect(hh, "empty server hello -> handshake error", lambda t: t in (f"not {hp}", f"len({hp}) == 0"), "HandshakeAPIError")
-    expect(hh, "unknown protocol byte -> handshake error", lambda t: t.replace(" ", "") == f"{hp}[0]!=1", "HandshakeAPIError")
-    name_expr = None
-    for n in own_nodes(hh.node):
-        if isinstance(n, ast.Assign) and isinstance(n.value, ast.Call) and isinstance(n.value.func, ast.Attribute) and n.value.func.attr == "decode":
-            name_expr = norm(n.targets[0])
-    expect(hh, "device name mismatch -> bad name carrying the received name", lambda t: "self._expected_name" in t and "decode()" in t and ("!=" in t), "BadNameAPIError", extra=lambda c: (len(c.args) == 2 and norm(c.args[1]) == name_expr, f"second argument {norm(c.args[1]) if len(c.args) > 1 else None}"))
+    from .c03 import hello_classifier
+
+    cl_hello, name_expr, _idx = hello_classifier(ctx, hh)
+    site(hh, "empty server hello -> handshake error", cl_hello, {"nonempty": False}, "HandshakeAPIError")
+    site(hh, "unknown protocol byte -> handshake error", cl_hello, {"nonempty": True, "proto_ok": False}, "HandshakeAPIError")
+    site(
+        hh, "device name mismatch -> bad name carrying the received name", cl_hello,
+        {"nonempty": True, "proto_ok": True, "name_present": True, "expected_set": True, "names_equal": False}, "BadNameAPIError",
+        normal={"nonempty": True, "proto_ok": True, "name_present": True, "expected_set": True, "names_equal": True},
+        extra=lambda c: (isinstance(c, ast.Call) and len(c.args) == 2 and norm(c.args[1]) == name_expr, f"second argument {norm(c.args[1]) if isinstance(c, ast.Call) and len(c.args) > 1 else None}"),
+    )
     # -- handshake error frame
     hs = noise.methods["_handle_handshake"]
     mp = [p for p in hs.param_names() if p != "self"][0]
@@ -132,8 +241,16 @@ def run(ctx: Ctx) -> None:
         n_sites += 1
     ctx.ob("C04.R1", hs, "handshake status byte != 0 -> error-frame handler", ok, f"{[norm(c.ast) for c in conds]}")
     ep = [p for p in eip.param_names() if p != "self"][0]
-    expect(eip, "error frame 'Handshake MAC failure' -> invalid encryption key", lambda t: "Handshake MAC failure" in t, "InvalidEncryptionKeyAPIError", in_body=_mac_body(eip))
-    expect(eip, "other error frame -> handshake error", lambda t: "Handshake MAC failure" in t, "HandshakeAPIError", in_body=not _mac_body(eip))
+    def cl_mac(n: Node):
+        t = n.ast
+        if isinstance(t, ast.Compare) and len(t.ops) == 1 and isinstance(t.ops[0], (ast.Eq, ast.NotEq)):
+            for a, b in ((t.left, t.comparators[0]), (t.comparators[0], t.left)):
+                if isinstance(b, ast.Constant) and b.value == "Handshake MAC failure":
+                    return ("mac_failure", isinstance(t.ops[0], ast.Eq))
+        return None
+
+    site(eip, "error frame 'Handshake MAC failure' -> invalid encryption key", cl_mac, {"mac_failure": True}, "InvalidEncryptionKeyAPIError")
+    site(eip, "other error frame -> handshake error", cl_mac, {"mac_failure": False}, "HandshakeAPIError")
     expl = [n for n in own_nodes(eip.node) if isinstance(n, ast.Assign) and isinstance(n.value, ast.Call) and isinstance(n.value.func, ast.Attribute) and n.value.func.attr == "decode"]
     ctx.ob("C04.R1", eip, "explanation = error frame without its status byte", len(expl) == 1 and norm(expl[0].value) == f"{ep}[1:].decode()", f"{[norm(e.value) for e in expl]}")
     rep = [c for c in own_nodes(eip.node) if isinstance(c, ast.Call) and isinstance(c.func, ast.Attribute) and c.func.attr == "_handle_error_and_close"]
@@ -141,15 +258,28 @@ def run(ctx: Ctx) -> None:
     # -- _handle_error mapping
     he = noise.methods["_handle_error"]
     xp = [p for p in he.param_names() if p != "self"][0]
-    expect(he, "InvalidTag -> invalid encryption key", lambda t: "InvalidTag" in t and "isinstance" in t, "InvalidEncryptionKeyAPIError")
-    expect(he, "reset while still in HELLO -> handshake error", lambda t: "ConnectionResetError" in t and "self._state" in t, "HandshakeAPIError")
     hello_c = ctx.sym.resolve_name("_frame_helper.noise", "NOISE_STATE_HELLO")
-    rt = [n for n in own_nodes(he.node) if isinstance(n, ast.If) and "ConnectionResetError" in norm(n.test)]
-    if rt:
-        cmpn = [x for x in ast.walk(rt[0].test) if isinstance(x, ast.Compare) and norm(x.left) == "self._state"]
-        ctx.ob("C04.R1", he, "... only while the state is HELLO", len(cmpn) == 1 and isinstance(cmpn[0].ops[0], ast.Eq) and ctx.sym.eval(cmpn[0].comparators[0], he.module.name) == hello_c, f"{[norm(c) for c in cmpn]}")
+
+    def cl_he(n: Node):
+        t = n.ast
+        if isinstance(t, ast.Call) and norm(t.func) == "isinstance" and len(t.args) == 2 and norm(t.args[0]) == xp:
+            k = norm(t.args[1]).split(".")[-1]
+            if k == "InvalidTag":
+                return ("invalid_tag", True)
+            if k == "ConnectionResetError":
+                return ("reset", True)
+        if isinstance(t, ast.Compare) and len(t.ops) == 1 and norm(t.left) == "self._state" and isinstance(t.ops[0], (ast.Eq, ast.NotEq, ast.Is, ast.IsNot)):
+            if ctx.sym.eval(t.comparators[0], he.module.name) == hello_c and hello_c is not Unknown:
+                return ("in_hello", isinstance(t.ops[0], (ast.Eq, ast.Is)))
+        return None
+
+    site(he, "InvalidTag -> invalid encryption key", cl_he, {"invalid_tag": True, "reset": False}, "InvalidEncryptionKeyAPIError")
+    site(he, "reset while still in HELLO -> handshake error", cl_he, {"invalid_tag": False, "reset": True, "in_hello": True}, "HandshakeAPIError")
+    for asg, what in (({"invalid_tag": False, "reset": True, "in_hello": False}, "a reset after the hello"), ({"invalid_tag": False, "reset": False}, "any other error")):
+        classes, may, mst, _ = reported_under(ctx, he, asg, cl_he)
+        ctx.ob("C04.R1", he, f"... only while the state is HELLO: {what} is reported unchanged", classes == {f"<param {xp}>"} and mst, f"reports {sorted(classes)}")
     causes = [n for n in own_nodes(he.node) if isinstance(n, ast.Assign) and any(norm(t).endswith(".__cause__") for t in n.targets)]
-    ctx.ob("C04.R1", he, "mapped errors keep their cause", len(causes) == 2, f"{len(causes)} __cause__ assignments")
+    ctx.ob("C04.R1", he, "mapped errors keep their cause", len(causes) >= 2 and all(norm(c.value) in (xp, "original_exc") or isinstance(c.value, ast.Name) for c in causes), f"{len(causes)} __cause__ assignments")
     sup = [c for c in own_nodes(he.node) if isinstance(c, ast.Call) and isinstance(c.func, ast.Attribute) and c.func.attr == "_handle_error" and norm(c.func.value) == "super()"]
     ctx.ob("C04.R2", he, "mapped exception is what gets reported (base handler called with it on every path)", len(sup) == 1 and [norm(a) for a in sup[0].args] == [xp] and _on_every_path(ctx, he, sup[0]), f"{[norm(a) for c in sup for a in c.args]}")
     # -- closed
@@ -159,18 +289,46 @@ def run(ctx: Ctx) -> None:
     # -- plaintext preamble
     pe = plain.methods["_error_on_incorrect_preamble"]
     pp = [p for p in pe.param_names() if p != "self"][0]
-    expect(pe, "plaintext preamble 0x01 -> requires encryption", lambda t: t.replace(" ", "") == f"{pp}==1", "RequiresEncryptionAPIError")
-    expect(pe, "other plaintext preamble -> protocol error", lambda t: t == "<unconditional>", "ProtocolAPIError")
+    def cl_pre(n: Node):
+        t = n.ast
+        if isinstance(t, ast.Compare) and len(t.ops) == 1 and isinstance(t.ops[0], (ast.Eq, ast.NotEq)) and norm(t.left) == pp and isinstance(t.comparators[0], ast.Constant) and t.comparators[0].value == 1:
+            return ("is_one", isinstance(t.ops[0], ast.Eq))
+        return None
+
+    site(pe, "plaintext preamble 0x01 -> requires encryption", cl_pre, {"is_one": True}, "RequiresEncryptionAPIError")
+    site(pe, "other plaintext preamble -> protocol error", cl_pre, {"is_one": False}, "ProtocolAPIError")
     pdr = plain.methods["data_received"]
     gp = cfg_of(ctx, pdr)
-    pconds = [n for n in gp.reachable() if n.kind == "cond" and isinstance(n.ast, ast.Compare) and any(isinstance(x, ast.Call) and norm(x.func) == "self._read_varuint" for x in ast.walk(n.ast)) and isinstance(n.ast.comparators[0], ast.Constant) and n.ast.comparators[0].value == 0]
-    okp = False
-    if pconds:
-        first = pconds[0]
-        bad_label = "true" if isinstance(first.ast.ops[0], ast.NotEq) else "false"
-        tgt = [s for l, s in first.succ if l == bad_label]
-        okp = bool(tgt) and any(pe in res.callees(pdr, c).funcs for c in node_calls(tgt[0]))
-    ctx.ob("C04.R1", pdr, "plaintext preamble != 0x00 -> preamble error handler", okp, "")
+    # the first varint read of an iteration is the preamble; its comparison with 0 routes to the handler
+    first_reads = [c for c in own_nodes(pdr.node) if isinstance(c, ast.Call) and norm(c.func) == "self._read_varuint"]
+    first_reads.sort(key=lambda c: (c.lineno, c.col_offset))
+    pv = bound_name(pdr.node, first_reads[0]) if first_reads else None
+
+    def cl_pdr(n: Node):
+        t = n.ast
+        if isinstance(t, ast.Compare) and len(t.ops) == 1 and isinstance(t.ops[0], (ast.Eq, ast.NotEq)) and isinstance(t.comparators[0], ast.Constant) and t.comparators[0].value == 0 and not isinstance(t.comparators[0].value, bool):
+            l = t.left.value if isinstance(t.left, ast.NamedExpr) else t.left
+            if (pv and norm(l) == pv) or (first_reads and l is first_reads[0]):
+                return ("preamble_ok", isinstance(t.ops[0], ast.Eq))
+        return None
+
+    hnodes = [n for n in gp.reachable() if any(pe in res.callees(pdr, c).funcs for c in node_calls(n))]
+    from ..guard import truth_table as _tt
+
+    loops_p = [n for n in own_nodes(pdr.node) if isinstance(n, ast.While)]
+    heads_p = [n for n in gp.reachable() if n.kind == "join" and loops_p and n.ast is loops_p[0]]
+    tabp = _tt(gp, ["preamble_ok"], cl_pdr, hnodes, start=heads_p[0] if heads_p else None)
+    okp = bool(hnodes) and tabp[(False,)][0] and not tabp[(True,)][0]
+    if okp:
+        # and with a wrong preamble nothing else happens: the handler is unavoidable before the next read / exit
+        avoid = walk(gp, {"preamble_ok": False}, cl_pdr, start=heads_p[0] if heads_p else None, blocked=set(hnodes))
+        later_reads = [n for n in avoid if n not in hnodes and any(c in first_reads[1:] for c in node_calls(n))]
+        okp = not later_reads
+    ctx.ob("C04.R1", pdr, "plaintext preamble != 0x00 -> preamble error handler", okp, fmt_table(["preamble_ok"], tabp))
+    for hn in hnodes:
+        for c in node_calls(hn):
+            if pe in res.callees(pdr, c).funcs:
+                ctx.ob("C04.R1", pdr, "the preamble handler receives the byte that was read", bool(c.args) and (norm(c.args[0]) == pv or (isinstance(c.args[0], ast.Name) and pv is None)), f"{[norm(a) for a in c.args]}")
     early = preamble_before_giveup(ctx, pdr)
     ctx.ob("C04.R1", pdr, "the framing marker is examined before the receive loop can give up", not early, f"the loop can return at {early[:2]} with bytes buffered whose first byte was never examined: a device speaking the other framing is diagnosed late (or only as a socket error)")
     # -- key validation
